@@ -163,6 +163,9 @@ theorem prog_pred (hP : ValPred P) (p : Prog) (ho : ∀ o ∈ p.ops, PredOp P o)
     · split at hx
       · cases hx; exact ⟨h2, fun b hb => by cases hb; exact h1⟩
       · cases hx
+    · split at hx
+      · cases hx; exact ⟨h2, fun b hb => by cases hb; exact h1⟩
+      · cases hx
 
 end
 
